@@ -250,6 +250,10 @@ def objIssues (names defaultNames : List String) (required : Option (List String
     ++ (if defaultNames.all req.contains then [] else ["default-forces-required"])
     ++ (if collapses (declRequired names defaultNames (some req)) names addl
         then ["single-field-collapse"] else [])
+    -- `structure_to_schema` appends the defaulted field to `cls._required` in place, so from its
+    -- second call on the same class (a definition referenced twice) the class collapses as well
+    ++ (if !defaultNames.isEmpty && collapses req names addl
+        then ["collapse-after-required-mutation"] else [])
 
 mutual
 /-- reasons why `toSchema (schemaToDecl s)` differs from `s` (empty = in the fragment) -/
@@ -385,6 +389,9 @@ def topCrashes : Schema → List String
   | .obj props defaults none addl =>
     (if defaults.isEmpty then [] else ["crash:default-without-required"])
       ++ crashes (.obj props defaults none addl)
+  -- a top-level object without properties generates a class without fields: nothing is converted
+  | .mapAny _ _ _ => []
+  | .mapOf _ _ _ => []
   | s => crashes s
 
 /-- the class statement has no body (IndentationError): no description, nothing emitted for
